@@ -283,27 +283,40 @@ Flat(t) == FlatAt(t, <<>>, TRUE)
 
 VARIABLES content,   \* key id -> value id, 0 = absent   (the abstract content)
           tree,      \* the in-memory node graph (Trie.root)
-          limit      \* Trie.cachelimit
+          limit,     \* Trie.cachelimit
+          prov       \* where the resolved nodes that no call has rebuilt since come from:
+                     \*   "built"  made by insert/delete, never committed (dirty)
+                     \*   "clean"  the same objects after a Commit (hash cached, clean)
+                     \*   "mem"    re-loaded from the NodeDatabase's memory layer (expandNode)
+                     \*   "disk"   re-loaded from the disk store (decodeNode)
+                     \* It does not influence any result of the reference; it makes the
+                     \* generator visit every content / cache state once per provenance,
+                     \* because the code paths that materialise a node differ.
 
-vars == <<content, tree, limit>>
+vars == <<content, tree, limit, prov>>
 
 Init == /\ content = [k \in KeyIds |-> 0]
         /\ tree = Nil
         /\ limit = 0
+        /\ prov = "built"
+
+KeepProv == prov' = IF tree' = Nil THEN "built" ELSE prov
 
 Update(k, v) ==
   /\ content' = [content EXCEPT ![k] = v]
   /\ tree' = UpdateTree(tree, k, v)
+  /\ KeepProv
   /\ UNCHANGED limit
 
 Del(k) ==
   /\ content' = [content EXCEPT ![k] = 0]
   /\ tree' = Delete(tree, k)
+  /\ KeepProv
   /\ UNCHANGED limit
 
 Get(k) ==
   /\ tree' = LookupR(tree, PathOf(k))[2]
-  /\ UNCHANGED <<content, limit>>
+  /\ UNCHANGED <<content, limit, prov>>
 
 HashOnly == UNCHANGED vars          \* caches digests in the flags, nothing else
 
@@ -312,23 +325,28 @@ HashOnly == UNCHANGED vars          \* caches digests in the flags, nothing else
 Collapsed(t) == IF Kind(t) \in {"N", "V"} THEN t ELSE Load(Expand(t))
 Commit ==
   /\ tree' = IF limit = 0 THEN Collapsed(tree) ELSE tree
+  /\ prov' = IF tree = Nil THEN "built"
+             ELSE IF prov = "built" THEN "clean"               \* first commit: same objects, now clean
+             ELSE IF prov = "clean" /\ limit = 0 THEN "mem"    \* clean nodes are unloaded, come back from the db
+             ELSE prov
   /\ UNCHANGED <<content, limit>>
 
 (* NewTrie(root, db): the root is resolved, everything below it by need *)
-Reopen ==
+Reopen(from) ==
   /\ tree' = Collapsed(tree)
   /\ limit' = 0
+  /\ prov' = IF tree = Nil THEN "built" ELSE from
   /\ UNCHANGED content
 
 SetLimit(l) ==
   /\ limit' = l
-  /\ UNCHANGED <<content, tree>>
+  /\ UNCHANGED <<content, tree, prov>>
 
 Next ==
   \/ \E k \in KeyIds, v \in ValIds \cup {0} : Update(k, v)
   \/ \E k \in KeyIds : Del(k)
   \/ \E k \in KeyIds : Get(k)
-  \/ HashOnly \/ Commit \/ Reopen
+  \/ HashOnly \/ Commit \/ Reopen("mem") \/ Reopen("disk")
   \/ \E l \in {0, 2} : SetLimit(l)
 
 Spec == Init /\ [][Next]_vars
@@ -358,4 +376,5 @@ Minimal(n) == CASE Kind(n) = "S" -> /\ Kind(n[3]) # "S" /\ Len(n[2]) > 0
 InvMinimal == Minimal(Expand(tree))
 TypeOK == /\ content \in [KeyIds -> ValIds \cup {0}]
           /\ limit \in {0, 2}
+          /\ prov \in {"built", "clean", "mem", "disk"}
 =============================================================================
